@@ -1,7 +1,9 @@
 /-
-  Props/C07 — property theorems over M-Core (see DESIGN.md §4 C07).
+  Props/C07 — one proposer per rollapp, replaced only through the rotation protocol.
+  Property theorems over M-Core, for every valid parameter set (the notice period is validated to be
+  positive by `Params.ValidateBasic`) and every operation sequence.
 -/
-import DymVerif.Model.Core
+import DymVerif.Lemmas.CoreRolesS
 namespace DymVerif.C07
 open DymVerif DymVerif.Core
 
@@ -13,5 +15,323 @@ theorem reject_unchanged (s : St) (o : Op) (e : Err) (h : (step s o).2 = some e)
   cases h' : apply s o with
   | ok s' => simp [h'] at h
   | error e' => simp [h']
+
+/-- **The roles invariant, every reachable state.**  For every rollapp of every state reachable by
+    any sequence of create / bond / opt-in/out / unbond (notice) / update (incl. last) / kick /
+    fraud-fork / obsolete / begin / end-block operations:
+    * records are unique (one record per rollapp id, one per sequencer address), so the `Option`
+      fields give at most one proposer and at most one successor per rollapp;
+    * the proposer and the successor are bonded sequencers of that very rollapp (or empty);
+    * they are never the same sequencer;
+    * a successor exists only while there is a proposer. -/
+theorem proposer_wf (p : Params) (hp : 0 < p.noticePeriod) (ops : List Op) (r : Rollapp)
+    (hr : r ∈ (run p ops).ras) :
+    (∀ r' ∈ (run p ops).ras, r'.id = r.id → r' = r) ∧
+    (∀ q ∈ (run p ops).seqs, ∀ q' ∈ (run p ops).seqs, q'.addr = q.addr → q' = q) ∧
+    (∀ a, r.proposer = some a → ∃ q, getSeq (run p ops) a = some q ∧ q.bonded = true ∧ q.rollapp = r.id) ∧
+    (∀ a, r.successor = some a → ∃ q, getSeq (run p ops) a = some q ∧ q.bonded = true ∧ q.rollapp = r.id) ∧
+    (∀ a, r.proposer = some a → r.successor ≠ some a) ∧
+    (r.successor.isSome = true → r.proposer.isSome = true) := by
+  have h := run_roles p hp ops
+  refine ⟨fun r' hr' e => h.core.uniq.ids.eq_of_mem hr' hr e,
+    fun q hq q' hq' e => h.core.uniq.addrs.eq_of_mem hq' hq e,
+    h.core.prop r hr, h.core.succ r hr, h.core.ne r hr, ?_⟩
+  intro hs
+  cases hpn : r.proposer with
+  | some _ => rfl
+  | none => rw [h.sp r hr hpn] at hs; cases hs
+
+/-- an unbonded sequencer holds no role in any rollapp; a sequencer holds roles only in its own rollapp -/
+theorem role_holder_bonded (p : Params) (hp : 0 < p.noticePeriod) (ops : List Op) (q : Seq)
+    (hq : q ∈ (run p ops).seqs) (r : Rollapp) (hr : r ∈ (run p ops).ras)
+    (hrole : r.proposer = some q.addr ∨ r.successor = some q.addr) : q.bonded = true ∧ q.rollapp = r.id := by
+  have h := run_roles p hp ops
+  have hg := getSeq_of_mem h.core.uniq.addrs hq
+  rcases hrole with h1 | h1
+  · obtain ⟨q', hq', hb, hro⟩ := h.core.prop r hr _ h1
+    rw [hg] at hq'; injection hq' with hq'; subst hq'; exact ⟨hb, hro⟩
+  · obtain ⟨q', hq', hb, hro⟩ := h.core.succ r hr _ h1
+    rw [hg] at hq'; injection hq' with hq'; subst hq'; exact ⟨hb, hro⟩
+
+/-- a sequencer that has started its notice is opted out, and every notice-queue entry belongs to the
+    current proposer of its rollapp, carries that sequencer's notice time, and lies in the future -/
+theorem notice_consistent (p : Params) (hp : 0 < p.noticePeriod) (ops : List Op) :
+    (∀ q ∈ (run p ops).seqs, q.notice.isSome = true → q.optedIn = false) ∧
+    (∀ t a, (t, a) ∈ (run p ops).nq → (run p ops).t < t ∧ ∃ q r, getSeq (run p ops) a = some q ∧ q.notice = some t ∧
+        getRa (run p ops) q.rollapp = some r ∧ r.proposer = some a) := by
+  have h := run_roles p hp ops
+  exact ⟨h.core.optOut, fun t a hta => ⟨h.core.fut _ hta, h.core.nq t a hta⟩⟩
+
+/-- **Only the proposer's state updates are accepted** (in any state whatsoever). -/
+theorem only_proposer_updates (s s' : St) (m : UpdMsg) (h : apply s (.update m) = .ok s') :
+    ∃ r, getRa s m.ra = some r ∧ r.proposer = some m.sender := by
+  simp only [apply] at h
+  unfold updateState at h
+  split at h
+  · cases h
+  · split at h
+    · cases h
+    · rename_i r hg
+      split at h
+      · cases h
+      · rename_i hprop
+        exact ⟨r, hg, by simpa using hprop⟩
+
+/-- in a reachable state the accepted update moreover comes from a bonded sequencer of that rollapp -/
+theorem update_sender_bonded (p : Params) (hp : 0 < p.noticePeriod) (ops : List Op) (s' : St) (m : UpdMsg)
+    (h : apply (run p ops) (.update m) = .ok s') :
+    ∃ r q, getRa (run p ops) m.ra = some r ∧ r.proposer = some m.sender ∧
+      getSeq (run p ops) m.sender = some q ∧ q.bonded = true ∧ q.rollapp = m.ra := by
+  obtain ⟨r, hg, hpr⟩ := only_proposer_updates _ _ _ h
+  obtain ⟨q, hq, hb, hro⟩ := (run_roles p hp ops).core.prop r (getRa_mem hg) _ hpr
+  exact ⟨r, q, hg, hpr, hq, hb, hro.trans (getRa_id hg)⟩
+
+/-- **The proposer changes only through the rotation protocol.**  If an accepted operation changes
+    the proposer of rollapp `id` (record `r` before, `r'` after), then it is one of:
+    (a) the proposer's own *last* update, sent after its notice period elapsed: the new proposer is
+        the successor chosen when the notice expired (if that was the sentinel the rollapp is forked
+        and the slot is left empty);
+    (b) a kick by a bonded, opted-in sequencer of the rollapp other than the proposer, the proposer's
+        dishonor having reached the threshold: the rollapp is forked and the new proposer is the
+        choice among the post-state's sequencers;
+    (c) a fork by fraud proposal or obsolete-DRS marking: the slot is left empty;
+    (d) an empty slot filled, on sequencer creation or opt-in, with the choice among the post-state's
+        sequencers.
+    Every other operation leaves every proposer unchanged. -/
+theorem proposer_change_classified (p : Params) (hp : 0 < p.noticePeriod) (ops : List Op) (o : Op) (s' : St)
+    (id : Nat) (r r' : Rollapp) (h : apply (run p ops) o = .ok s')
+    (hr : getRa (run p ops) id = some r) (hr' : getRa s' id = some r') (hne : r'.proposer ≠ r.proposer) :
+    (∃ m q, o = .update m ∧ m.ra = id ∧ m.last = true ∧ r.proposer = some m.sender ∧
+        getSeq (run p ops) m.sender = some q ∧ noticeElapsed q (run p ops).t = true ∧ r'.proposer = r.successor) ∨
+    (∃ a k pa pq, o = .kick a ∧ getSeq (run p ops) a = some k ∧ k.bonded = true ∧ k.optedIn = true ∧ k.rollapp = id ∧
+        r.proposer = some pa ∧ a ≠ pa ∧ getSeq (run p ops) pa = some pq ∧ (run p ops).p.kickThr ≤ pq.dishonor ∧
+        r'.proposer = choose s' id ∧ r'.proposer.isSome = true) ∨
+    (r'.proposer = none ∧
+        ((∃ au hh rev pun rw, o = .fraud au id hh rev pun rw) ∨ (∃ au vs, o = .obsolete au vs))) ∨
+    (r.proposer = none ∧ r'.proposer = choose s' id ∧ r'.proposer.isSome = true ∧
+        ((∃ a b d, o = .createSeq a id b d) ∨
+         (∃ a v q, o = .optIn a v ∧ getSeq (run p ops) a = some q ∧ q.rollapp = id))) :=
+  apply_classify (run_roles p hp ops) h hr hr' hne
+
+/-- **The successor is chosen when the notice expires, and only then.**  If an accepted operation
+    changes the successor of rollapp `id`, then either the slot was cleared (rotation completed, or
+    fork), or the operation is a begin-block at which the notice-queue entry of the rollapp's
+    proposer came due (its notice time `t` ≤ the new block time), and the new successor is the
+    proposer choice over the sequencers of that moment (the sentinel if there is no candidate). -/
+theorem successor_change_classified (p : Params) (hp : 0 < p.noticePeriod) (ops : List Op) (o : Op) (s' : St)
+    (id : Nat) (r r' : Rollapp) (h : apply (run p ops) o = .ok s')
+    (hr : getRa (run p ops) id = some r) (hr' : getRa s' id = some r') (hne : r'.successor ≠ r.successor) :
+    r'.successor = none ∨
+    ∃ dt t a q, o = .begin_ dt ∧ (t, a) ∈ (run p ops).nq ∧ t ≤ (run p ops).t + dt ∧
+      getSeq (run p ops) a = some q ∧ q.notice = some t ∧ q.rollapp = id ∧ r.proposer = some a ∧
+      r'.successor = choose s' id := by
+  have hroles := run_roles p hp ops
+  have hs : succOf (run p ops) id = some r.successor := succOf_get hr
+  have hs' : succOf s' id = some r'.successor := succOf_get hr'
+  by_cases hb : ∃ dt, o = .begin_ dt
+  · obtain ⟨dt, rfl⟩ := hb
+    simp only [apply] at h
+    injection h with h; subst h
+    rcases beginBlock_succ (run p ops) dt id with h1 | ⟨t, a, q0, hta, ht, hq0, hq0r, hc⟩
+    · rw [hs, hs'] at h1; injection h1 with h1; exact absurd h1 hne
+    · right
+      obtain ⟨q, r1, hq, hn, hr1, hp1⟩ := hroles.core.nq t a hta
+      rw [hq0] at hq; injection hq with hq; subst hq
+      rw [hq0r, hr] at hr1; injection hr1 with hr1; subst hr1
+      rw [hs'] at hc; injection hc with hc
+      exact ⟨dt, t, a, q0, rfl, hta, ht, hq0, hn, hq0r, hp1, hc⟩
+  · left
+    rcases apply_sclr hroles h (fun dt hc => hb ⟨dt, hc⟩) id with h1 | h1
+    · rw [hs, hs'] at h1; injection h1 with h1; exact absurd h1 hne
+    · rw [hs'] at h1; injection h1
+
+/-- **The choice is the highest-bonded potential proposer.**  In a reachable state, if the choice
+    for rollapp `ra` is `a`, then `a` is a bonded, opted-in sequencer of `ra`, no bonded opted-in
+    sequencer of `ra` has more tokens, and among those with equally many it has the smallest address. -/
+theorem fill_chooses_max_bond (p : Params) (hp : 0 < p.noticePeriod) (ops : List Op) (ra : Nat) (a : Addr)
+    (h : choose (run p ops) ra = some a) :
+    ∃ q, getSeq (run p ops) a = some q ∧ q.rollapp = ra ∧ q.bonded = true ∧ q.optedIn = true ∧
+      ∀ x ∈ (run p ops).seqs, x.rollapp = ra → x.bonded = true → x.optedIn = true →
+        x.tokens ≤ q.tokens ∧ (x.tokens = q.tokens → q.addr ≤ x.addr) := by
+  have hr := run_roles p hp ops
+  obtain ⟨b, hb, hmem, hmax⟩ := choose_max_tiebreak hr.core.uniq.sorted h
+  have hm := mem_cands.1 hmem
+  refine ⟨b, hb ▸ getSeq_of_mem hr.core.uniq.addrs hm.1, hm.2.1, hm.2.2.1, hm.2.2.2, ?_⟩
+  intro x hx h1 h2 h3
+  exact hmax x (mem_cands.2 ⟨hx, h1, h2, h3⟩)
+
+/-- the sentinel (empty slot) is chosen exactly when the rollapp has no bonded opted-in sequencer -/
+theorem choose_none_iff (s : St) (ra : Nat) :
+    choose s ra = none ↔ ∀ x ∈ s.seqs, ¬ (x.rollapp = ra ∧ x.bonded = true ∧ x.optedIn = true) := by
+  rw [choose_none]
+  constructor
+  · intro h x hx hc
+    have : x ∈ cands s ra := mem_cands.2 ⟨hx, hc⟩
+    rw [h] at this; cases this
+  · intro h
+    apply List.eq_nil_iff_forall_not_mem.2
+    intro x hx
+    have := mem_cands.1 hx
+    exact h x this.1 this.2
+
+/-- **Monotonicity of a sequencer's record** along any continuation of a reachable history: its
+    rollapp never changes, a started notice is never reset, an unbonded sequencer never becomes
+    bonded again. -/
+theorem seq_monotone (p : Params) (hp : 0 < p.noticePeriod) (ops ops2 : List Op) (a : Addr) (q : Seq)
+    (hq : getSeq (run p ops) a = some q) :
+    ∃ q', getSeq (run p (ops ++ ops2)) a = some q' ∧ q'.rollapp = q.rollapp ∧
+      (q.notice.isSome = true → q'.notice = q.notice) ∧ (q.bonded = false → q'.bonded = false) := by
+  rw [run_append]
+  exact (runFrom_roles_mono (run_roles p hp ops) ops2).2 a q hq
+
+/-- a sequencer that has started its notice or is unbonded is never chosen (as proposer or as
+    successor, for any rollapp) in any later state -/
+theorem marked_never_chosen (p : Params) (hp : 0 < p.noticePeriod) (ops ops2 : List Op) (a : Addr) (q : Seq)
+    (hq : getSeq (run p ops) a = some q) (hm : q.notice.isSome = true ∨ q.bonded = false) (ra : Nat) :
+    choose (run p (ops ++ ops2)) ra ≠ some a := by
+  rw [run_append]
+  have h := runFrom_roles_mono (run_roles p hp ops) ops2
+  exact choose_ne_marked h.1.core (h.2.marked ⟨q, hq, hm⟩) ra
+
+/-- whoever stops being proposer under an accepted operation has a started notice (rotation) or has
+    been unbonded (kick, fork) in the resulting state -/
+theorem removed_proposer_marked (p : Params) (hp : 0 < p.noticePeriod) (ops : List Op) (o : Op) (s' : St)
+    (id : Nat) (r r' : Rollapp) (a : Addr) (h : apply (run p ops) o = .ok s')
+    (hr : getRa (run p ops) id = some r) (hpa : r.proposer = some a)
+    (hr' : getRa s' id = some r') (hne : r'.proposer ≠ some a) :
+    ∃ q', getSeq s' a = some q' ∧ (q'.notice.isSome = true ∨ q'.bonded = false) := by
+  apply apply_removed_marked (run_roles p hp ops) h hr hpa
+  rw [propOf_get hr']
+  intro hc; injection hc with hc; exact hne hc
+
+/-- **A sequencer that has served notice or was removed as proposer is never chosen again.**  If `a`
+    is the proposer of a rollapp after `ops` and no longer after the next operation `o`, then in
+    every later state the proposer choice (for filling a slot or for a successor, of any rollapp)
+    never returns `a`. -/
+theorem never_proposer_twice (p : Params) (hp : 0 < p.noticePeriod) (ops : List Op) (o : Op) (ops2 : List Op)
+    (id : Nat) (r : Rollapp) (a : Addr)
+    (hr : getRa (run p ops) id = some r) (hpa : r.proposer = some a)
+    (hlost : ∀ r', getRa (run p (ops ++ [o])) id = some r' → r'.proposer ≠ some a) (ra : Nat) :
+    choose (run p (ops ++ o :: ops2)) ra ≠ some a := by
+  have hroles := run_roles p hp ops
+  have e1 : run p (ops ++ [o]) = (step (run p ops) o).1 := by
+    rw [run_append]; rfl
+  -- the operation was accepted (a rejected one leaves the proposer in place)
+  cases happ : apply (run p ops) o with
+  | error err =>
+    have : (step (run p ops) o).1 = run p ops := by unfold step; rw [happ]
+    rw [e1, this] at hlost
+    exact absurd hpa (hlost r hr)
+  | ok s' =>
+    have hs' : (step (run p ops) o).1 = s' := by unfold step; rw [happ]
+    rw [e1, hs'] at hlost
+    have hm : Marked s' a := by
+      apply apply_removed_marked hroles happ hr hpa
+      unfold propOf
+      cases hg : getRa s' id with
+      | none => intro hc; cases hc
+      | some r' =>
+        intro hc
+        simp only [Option.map_some, Option.some.injEq] at hc
+        exact hlost r' hg hc
+    have e2 : run p (ops ++ o :: ops2) = runFrom s' ops2 := by
+      rw [show ops ++ o :: ops2 = (ops ++ [o]) ++ ops2 by simp, run_append, e1, hs']
+    rw [e2]
+    have h2 := runFrom_roles_mono (apply_roles hroles happ) ops2
+    exact choose_ne_marked h2.1.core (h2.2.marked hm) ra
+
+/-- **... and never holds a role again.**  Under the same hypotheses, in every later state `a` is
+    neither proposer nor successor of any rollapp: a rotation only promotes the successor, and a
+    successor is always a bonded sequencer that has not started a notice, while `a` has a started
+    notice or is unbonded from the moment it lost the slot, for ever. -/
+theorem never_proposer_again (p : Params) (hp : 0 < p.noticePeriod) (ops : List Op) (o : Op) (ops2 : List Op)
+    (id : Nat) (r : Rollapp) (a : Addr)
+    (hr : getRa (run p ops) id = some r) (hpa : r.proposer = some a)
+    (hlost : ∀ r', getRa (run p (ops ++ [o])) id = some r' → r'.proposer ≠ some a) :
+    ∀ r' ∈ (run p (ops ++ o :: ops2)).ras, r'.proposer ≠ some a ∧ r'.successor ≠ some a := by
+  have hroles := run_roles p hp ops
+  have e1 : run p (ops ++ [o]) = (step (run p ops) o).1 := by
+    rw [run_append]; rfl
+  cases happ : apply (run p ops) o with
+  | error err =>
+    have : (step (run p ops) o).1 = run p ops := by unfold step; rw [happ]
+    rw [e1, this] at hlost
+    exact absurd hpa (hlost r hr)
+  | ok s' =>
+    have hs' : (step (run p ops) o).1 = s' := by unfold step; rw [happ]
+    rw [e1, hs'] at hlost
+    have hout := out_after_removal hroles happ hr hpa hlost
+    have e2 : run p (ops ++ o :: ops2) = runFrom s' ops2 := by
+      rw [show ops ++ o :: ops2 = (ops ++ [o]) ++ ops2 by simp, run_append, e1, hs']
+    rw [e2]
+    have h2 := runFrom_out (apply_roles hroles happ) hout ops2
+    intro r' hr'
+    exact ⟨h2.2.notProp r' hr', marked_not_successor h2.1.core h2.2.marked r' hr'⟩
+
+/-- a successor is always a sequencer that has not started a notice (it was opted in when chosen, and
+    only a proposer can start a notice) -/
+theorem successor_fresh (p : Params) (hp : 0 < p.noticePeriod) (ops : List Op) (r : Rollapp)
+    (hr : r ∈ (run p ops).ras) (a : Addr) (hs : r.successor = some a) (q : Seq)
+    (hq : getSeq (run p ops) a = some q) : q.notice = none :=
+  (run_roles p hp ops).core.succFresh r hr a hs q hq
+
+-- ---------------------------------------------------------------- non-vacuity and the role of the parameter validation
+
+def exParams : Params where
+  dispute := 2
+  lsBlocks := 5
+  lsInterval := 2
+  lsMul := ⟨0⟩
+  lsAbs := 0
+  dishonorSU := 1
+  dishonorL := 1
+  kickThr := 2
+  noticePeriod := 10
+def exBds (start n : Nat) : List BD := (List.range n).map fun i => { height := start + i, hasTs := true, drs := 1, rootOk := true }
+
+/-- three sequencers with bonds 10 / 20 / 20; the proposer (first created) serves notice; when the
+    notice expires the successor is the highest-bonded one with the smallest address (3, not 4, not 2);
+    the proposer's last update hands over -/
+def exRotation : List Op := [.createRollapp 0 9 10, .fund 1 100, .fund 2 100, .fund 3 100, .fund 4 100,
+  .createSeq 1 0 10 true, .createSeq 2 0 10 true, .createSeq 4 0 20 true, .createSeq 3 0 20 true,
+  .update { ra := 0, sender := 1, start := 1, num := 3, rev := 0, last := false, bds := exBds 1 3 },
+  .bridge 0 1, .unbond 1, .begin_ 10]
+example : ((run exParams exRotation).ras.map fun r => (r.proposer, r.successor)) = [(some 1, some 3)] := by decide
+example : ((run exParams (exRotation ++
+    [.update { ra := 0, sender := 1, start := 4, num := 2, rev := 0, last := true, bds := exBds 4 2 }])).ras.map
+      fun r => (r.proposer, r.successor)) = [(some 3, none)] := by decide
+-- the rotated-out proposer is still bonded but opted out for good (notice started), so the choice skips it
+example : ((run exParams (exRotation ++
+    [.update { ra := 0, sender := 1, start := 4, num := 2, rev := 0, last := true, bds := exBds 4 2 }])).seqs.map
+      fun q => (q.addr, q.bonded, q.optedIn, q.notice)) =
+    [(1, true, false, some 10), (2, true, true, none), (3, true, true, none), (4, true, true, none)] := by decide
+
+-- ... and it cannot come back: opting in again is refused
+example : (step (run exParams (exRotation ++
+    [.update { ra := 0, sender := 1, start := 4, num := 2, rev := 0, last := true, bds := exBds 4 2 }])) (.optIn 1 true)).2
+      = some Err.noticeStarted := by decide
+
+/-- kick (threshold 0 for brevity): sequencer 2 kicks proposer 1; the rollapp is forked, 1 is unbonded, all
+    sequencers are opted out, the kicker is opted back in and is the choice (although 3 has the larger bond) -/
+def exKick : List Op := [.createRollapp 0 9 10, .fund 1 100, .fund 2 100, .fund 3 100,
+  .createSeq 1 0 10 true, .createSeq 2 0 10 true, .createSeq 3 0 30 true,
+  .update { ra := 0, sender := 1, start := 1, num := 3, rev := 0, last := false, bds := exBds 1 3 },
+  .bridge 0 1, .kick 2]
+example : (let s := run { exParams with kickThr := 0 } exKick
+    (s.ras.map fun r => (r.proposer, r.successor), s.seqs.map fun q => (q.addr, q.bonded, q.optedIn))) =
+    ([(some 2, none)], [(1, false, false), (2, true, true), (3, true, false)]) := by decide
+
+/-- The hypothesis `0 < noticePeriod` (enforced by the parameter validation of the real module) is
+    needed: with a zero notice period the proposer's notice is elapsed the moment it is served, its
+    last update forks the rollapp before any successor was chosen, its notice-queue entry survives,
+    and the next begin-block makes the *new* proposer its own successor. -/
+def np0Params : Params := { exParams with noticePeriod := 0 }
+def np0Ops : List Op := [.createRollapp 0 9 10, .fund 1 100, .fund 2 100, .createSeq 1 0 10 true, .createSeq 2 0 10 true,
+  .update { ra := 0, sender := 1, start := 1, num := 3, rev := 0, last := false, bds := exBds 1 3 },
+  .bridge 0 1, .unbond 1,
+  .update { ra := 0, sender := 1, start := 4, num := 2, rev := 0, last := true, bds := exBds 4 2 },
+  .optIn 2 true, .begin_ 1]
+theorem roles_np0_counterexample :
+    ((run np0Params np0Ops).ras.map fun r => (r.proposer, r.successor)) = [(some 2, some 2)] := by decide
 
 end DymVerif.C07
